@@ -26,19 +26,19 @@ CHECKS = {
   design="DESIGN.md §6 C03"),
  "C04": dict(
   category="model_checking",
-  text="Seeded random histories on the real nb and async(+Class C) front-ends in all 9 regions (OTAA and ABP), with hostile network input: JoinAccepts with arbitrary DLSettings/RxDelay/CFList (incl. RFU types), MAC-command streams with boundary and random field values (incl. reserved ones and malformed tails), replays, forgeries, random bytes, oversize frames, radio faults. Every call runs under catch_unwind with an RNG draw budget, so a panic or hang becomes a trace event no action of MacTrace.tla matches; after every history step the device's complete projected state must equal the specification's. Application misuse the type system allows is included (data on port 0, 200-255 byte payloads, set_datarate to any value 0..15, calls in the wrong nb state). Two open findings (channel selection without a usable channel / undefined data rate; send() panicking on port-0 data or oversize payloads) are listed in known_findings.json and reported as KNOWN-FINDING.",
+  text="Seeded random histories on the real nb and async(+Class C) front-ends in all 9 regions (OTAA and ABP), with hostile network input: JoinAccepts with arbitrary DLSettings/RxDelay/CFList (incl. RFU types), MAC-command streams with boundary and random field values (incl. reserved ones and malformed tails), replays, forgeries, random bytes, oversize frames, radio faults. Every call runs under catch_unwind with an RNG draw budget, so a panic or hang becomes a trace event no action of MacTrace.tla matches; after every history step the device's complete projected state must equal the specification's. Application misuse the type system allows is included (data on port 0, 200-255 byte payloads, set_datarate to any value 0..15, calls in the wrong nb state). Enumerated on top of the random histories (the property's 'exhaustive over an event alphabet'): the nb state machine under free-form event sequences (every sequence of 4 / thorough 5 events starting with a request over {send answered Done/Txing, join, TxDone, timeout, timeout with radio error, authentic / MIC-broken / oversize frame, stray and failure radio events}, plus all pairs from Idle); every async procedure (send|join) x RX1 outcome x RX2 outcome x fault position 0..9, each followed by a second procedure, with and without Class C; and a single-channel walk (every channel index once the only enabled one). Two open findings (channel selection without a usable channel / undefined data rate; send() panicking on port-0 data or oversize payloads) are listed in known_findings.json and reported as KNOWN-FINDING.",
   note='Trusted: Mac.tla (intended MAC behaviour, DESIGN Appendix B), Regions.tla (regional tables; disputed entries take the laxer reading), Codec.tla/Aes.tla/Cmac.tla (decide authenticity of every delivered frame and decode every uplink), TLC, the scripted radios/timer/RNG of the harness (no oracle logic). Histories are seeded-random (VERIF_SEED), not exhaustive; the exhaustive part is the named MC config over scaled-down constants.',
   technique="explicit TLA+ specification (Mac.tla, Regions.tla, Codec.tla) checked with TLC: " + 'MacTrace.tla' + "; implementation traces validated against it",
   design="DESIGN.md §6 C04"),
  "C05": dict(
   category="model_checking",
-  text='MCFcnt.cfg checks Mac!NextFcnt exhaustively on a scaled counter space (WireMod 8, MaxGap 2, 32 counters): accept iff last < N <= last+MaxGap, unique reconstruction, strictly increasing, no double accept, never backwards. Trace validation holds the real device to the same operator with the real constants: histories dominated by downlinks of every class; Codec.tla decides MIC validity, the spec decides freshness and size, and delivery / counters / responses / answers must match exactly.',
+  text='MCFcnt.cfg checks Mac!NextFcnt exhaustively on a scaled counter space (WireMod 8, MaxGap 2, 32 counters): accept iff last < N <= last+MaxGap, unique reconstruction, strictly increasing, no double accept, never backwards. The same operator text (FcntCore.tla, which Mac.tla instantiates) is proved by Apalache (FcntApa.tla, SMT) to accept exactly the fresh counters, soundly and completely, with the REAL constants for all 2^32 x 2^16 inputs; FcntTrace.tla compares the reconstruction of the implementation with it for all 65536 wire values at boundary and random `last` values. Trace validation holds the real device to the same operator with the real constants: histories dominated by downlinks of every class; Codec.tla decides MIC validity, the spec decides freshness and size, and delivery / counters / responses / answers must match exactly.',
   note='Trusted: Mac.tla (intended MAC behaviour, DESIGN Appendix B), Regions.tla (regional tables; disputed entries take the laxer reading), Codec.tla/Aes.tla/Cmac.tla (decide authenticity of every delivered frame and decode every uplink), TLC, the scripted radios/timer/RNG of the harness (no oracle logic). Histories are seeded-random (VERIF_SEED), not exhaustive; the exhaustive part is the named MC config over scaled-down constants.',
-  technique="explicit TLA+ specification (Mac.tla, Regions.tla, Codec.tla) checked with TLC: " + 'MCFcnt.cfg + MacTrace.tla' + "; implementation traces validated against it",
-  design="DESIGN.md §6 C05"),
+  technique="explicit TLA+ specification (Mac.tla, Regions.tla, Codec.tla) checked with TLC: " + 'MCFcnt.cfg + MacTrace.tla + FcntTrace.tla' + "; implementation traces validated against it; the counter-reconstruction lemma over the real constants by Apalache (FcntApa.tla) on the same operator",
+  design="DESIGN.md §6 C05, §13.2"),
  "C06": dict(
   category="model_checking",
-  text="MCFront.cfg explores every interleaving of sends, window outcomes, Class C receptions and a radio fault at every call position of the async procedure over a scaled counter space (including exhaustion): counters handed to the radio strictly increase. Trace validation: histories with radio faults injected at random call positions on both front-ends; every transmitted uplink is decoded by Codec.tla (MIC under the full 32-bit counter, low half on the wire) and the counter after every call must equal Mac.tla's (consumed also when the procedure aborts after a successful tx).",
+  text="MCFront.cfg explores every interleaving of sends, window outcomes, Class C receptions and a radio fault at every call position of the async procedure over a scaled counter space (including exhaustion): counters handed to the radio strictly increase. Trace validation: the enumerated async procedures (send|join x RX1 x RX2 outcome x fault position 0..9, followed by a second procedure, with/without Class C) and the nb state machine under free-form event sequences; histories with radio faults injected at random call positions on both front-ends; every transmitted uplink is decoded by Codec.tla (MIC under the full 32-bit counter, low half on the wire) and the counter after every call must equal Mac.tla's (consumed also when the procedure aborts after a successful tx).",
   note='Trusted: Mac.tla (intended MAC behaviour, DESIGN Appendix B), Regions.tla (regional tables; disputed entries take the laxer reading), Codec.tla/Aes.tla/Cmac.tla (decide authenticity of every delivered frame and decode every uplink), TLC, the scripted radios/timer/RNG of the harness (no oracle logic). Histories are seeded-random (VERIF_SEED), not exhaustive; the exhaustive part is the named MC config over scaled-down constants.',
   technique="explicit TLA+ specification (Mac.tla, Regions.tla, Codec.tla) checked with TLC: " + 'MCFront.cfg + MacTrace.tla' + "; implementation traces validated against it",
   design="DESIGN.md §6 C06"),
@@ -99,8 +99,8 @@ CHECKS = {
  "C17": dict(
   category="model_checking",
   text="The decode operators of the wire modules (PLL word -> Hz for both synthesiser resolutions, PA configuration + TX parameters -> dBm by table 13-21 / the RegPaConfig formulas, timeout registers -> symbols, status bytes -> RSSI/SNR) are the oracle: the real drivers are driven over the emulated SPI bus and TLC decodes what they programmed. Checked: SX126x word is the nearest step (< 1 Hz), SX127x within one step (< 62 Hz), conversion periodicity word(f+15625) = word(f)+16384; PA settings decode to the request clamped into the PA path's range, never above it; programmed symbol timeout >= request up to the chip maximum (248 / 1023); the LoRaWAN adapter's ms->symbols conversion observed through LorawanRadio covers 12.25 preamble symbols + margin (exact rational symbol time); reported RSSI/SNR within 1 dB of the data sheet conversion, no panic.",
-  note="Trusted: the decode operators (data sheet formulas, known-answer ASSUMEs), Modulation.tla bandwidth table, TLC, the recorder. The 8.8e8-point 1 Hz sweep is replaced by whole conversion periods + the periodicity relation (stated assumption); status triples are covered per byte plus the (rssi,snr) cross, not all 2^24. SX127x RSSI for negative SNR accepts both the data sheet reading and the reference's slope-corrected reading. Open findings are reported as KNOWN-FINDING.",
-  technique=TV + " (Sx126xWire.tla, Sx127xWire.tla decode operators, Modulation.tla, WireTrace.tla)",
+  note="Trusted: the decode operators (data sheet formulas, known-answer ASSUMEs), Modulation.tla bandwidth table, TLC, the recorder. The 8.8e8-point 1 Hz sweep is replaced by whole conversion periods + the periodicity relation; that the specification's conversion (PllCore.tla, instantiated by both wire modules) is nearest-step, monotone and periodic for EVERY frequency 137-1020 MHz is proved by Apalache (PllApa.tla); status triples are covered per byte plus the (rssi,snr) cross, not all 2^24. SX127x RSSI for negative SNR accepts both the data sheet reading and the reference's slope-corrected reading. Open findings are reported as KNOWN-FINDING.",
+  technique=TV + " (Sx126xWire.tla, Sx127xWire.tla decode operators, Modulation.tla, WireTrace.tla); conversion lemma for all frequencies by Apalache (PllApa.tla) on the same operators (PllCore.tla)",
   design="DESIGN.md §6 C17"),
  "C18": dict(
   category="model_checking",
